@@ -21,8 +21,13 @@ outcome, which is an input** of the model:
 
 A *wrong return type* (`None`, `str`, `int`, …) makes `response.code` (resource.py:126) or
 `len(assembled.payload)` (blockwise.py) raise `AttributeError`; the model therefore maps the
-outcome class `returnsNonMessage` to `Exc.other`.  The correspondence check tests exactly this
-classification.
+outcome class `returnsNonMessage` to `Exc.other`.  The same holds for a resource with a `render`
+of its own and `needs_blockwise_assembly` False, where the value reaches `pipe.add_response`
+unchecked: `None` is refused there with `TypeError` (pipe.py:198-204, since fix 4aba5c5; before,
+it was taken for the tombstone event and the request went unanswered), any other non-message makes
+the token manager's `on_event` raise `AttributeError` into the rendering task.  An error renderer
+returning a non-message is `rendererFails` (pipe.py:272, since fix 7c9a80f for values other than
+`None`).  The correspondence check tests exactly this classification on both paths.
 -/
 namespace Aiocoap.Render
 
